@@ -157,8 +157,10 @@ def update_params(
     else:
         sections_dict = params_dict
         for section_name, params_dict in sections_dict.items():
+            if not params.has_section(section_name):
+                params.add_section(section_name)
             for param_name, param_value in params_dict.items():
-                params.set(section_name, param_name, param_value)
+                params.set(section_name, param_name, str(param_value))
     return params
 
 
